@@ -73,6 +73,8 @@ class World:
         self.addr_peer = None   # optional: callable((host, port), sent bytes) -> reply, for worlds with several servers
         self.refuse = set()     # remotes (host, port) whose connect() is refused
         self.on_block = None    # exception name raised by a recv that finds nothing owed (default: the WouldBlock marker)
+        self.ct, self.it = CONNECT_TIMEOUT, IO_TIMEOUT     # the configured connect / I/O timeouts (None allowed)
+        self.timeouts_set = {}  # sid -> number of settimeout calls so far
 
     def pop(self):
         if self.pos < len(self.script):
@@ -120,7 +122,15 @@ class FakeSocket:
         self.w.call((3, self.sid, c))
 
     def settimeout(self, v):
-        self.w.call((5, self.sid, 0 if v == CONNECT_TIMEOUT else 1 if v == IO_TIMEOUT else 2))
+        w = self.w
+        k = w.timeouts_set.get(self.sid, 0)
+        w.timeouts_set[self.sid] = k + 1
+        if w.ct == w.it:
+            which = (0 if k == 0 else 1) if v == w.ct else 2      # equal values: told apart by order
+        else:
+            which = 0 if v == w.ct else 1 if v == w.it else 2
+        self.timeout_in_force = v
+        w.call((5, self.sid, which))
 
     def connect(self, sockaddr):
         a = sockaddr[2] if isinstance(sockaddr, tuple) else -1
@@ -246,7 +256,7 @@ def handler_kinds(repo=None):
 
 
 DEFAULT_CFG = dict(tcp=True, naddr=1, nodelay=False, tls=False, keepalive=False, ignore_exc=False, prefix=b"",
-                   default_noreply=True, unicode=False, enc=0, serde=0)
+                   default_noreply=True, unicode=False, enc=0, serde=0, ct=CONNECT_TIMEOUT, it=IO_TIMEOUT)
 
 
 def cfg_list(cfg, hk=None):
@@ -263,7 +273,8 @@ def client_kwargs(cfg, world):
     from pymemcache import serde
     c = dict(DEFAULT_CFG)
     c.update(cfg)
-    kw = dict(connect_timeout=CONNECT_TIMEOUT, timeout=IO_TIMEOUT, no_delay=c["nodelay"], ignore_exc=c["ignore_exc"],
+    world.ct, world.it = c["ct"], c["it"]
+    kw = dict(connect_timeout=c["ct"], timeout=c["it"], no_delay=c["nodelay"], ignore_exc=c["ignore_exc"],
               socket_module=FakeSocketModule(world), key_prefix=c["prefix"], default_noreply=c["default_noreply"],
               allow_unicode_keys=c["unicode"], encoding="ascii" if c["enc"] == 0 else "utf8")
     if c["keepalive"]:
